@@ -40,6 +40,9 @@ Fixpoint polls_ok (s : sk) : bool :=
 Definition polls (s : sk) : nat := length (filter (fun e => match e with Some 21 => true | _ => false end) (flat s)).
 
 Lemma tie_poll_discipline :
+  (* no other function of the package polls the close channel (a poll inside a writer, a visitor
+     or a helper cannot return the closed error from the merge routine) *)
+  polls_elsewhere = 0 /\
   polls_ok sk_mergeToWriter = true /\ polls_ok sk_mergeStoredAndRemap = true /\
   polls_ok sk_mergeAndPersistInvertedSection = true /\ polls_ok sk_mergeAndPersistSynonymSection = true /\
   polls_ok sk_faissVectorIndexSection_Merge = true /\ polls_ok sk_vectorIndexOpaque_mergeAndWriteVectorIndexes = true /\
